@@ -195,7 +195,23 @@ func (m *c11Mon) Observe(pre, post *cdpSnap, e *cdpEvent) {
 		delete(m.net, id)
 	}
 	if e.Kind == "block" {
+		// other flows of the same block can pay accounts in the lot's denomination as well: a Dutch auction settled by an
+		// automatic fill pays initiator proceeds / keeper incentive (debt denom) and the owner's remainder (collateral
+		// denom). The receipt law is decided only for denominations no changed Dutch auction of the block deals in.
+		other := map[string]bool{}
+		for id, a := range pre.AucV2 {
+			if !a.AuctionType {
+				continue
+			}
+			if b, still := post.AucV2[id]; !still || !b.DebtToken.IsEqual(a.DebtToken) || !b.CollateralToken.IsEqual(a.CollateralToken) {
+				other[a.DebtToken.Denom], other[a.CollateralToken.Denom] = true, true
+			}
+		}
 		for lotDenom, byWinner := range endedLots {
+			if other[lotDenom] {
+				m.rec.Count("english_lot_receipt_checks_skipped_dutch_settlement_in_same_block", 1)
+				continue
+			}
 			for _, ac := range u.c.Accts {
 				got := bigSub(post.bal(ac.Name, lotDenom), pre.bal(ac.Name, lotDenom))
 				want := byWinner[ac.Name]
